@@ -3,6 +3,7 @@ import Driver.Page
 import Driver.Hash
 import Driver.Streamer
 import Driver.Err
+import Driver.Retry
 
 def dispatch (line : String) : String :=
   match (line.trimAscii.toString.splitOn " ").filter (· ≠ "") with
@@ -12,6 +13,8 @@ def dispatch (line : String) : String :=
   | "stream" :: rest => Driver.Streamer.handle rest
   | "err" :: rest => Driver.Err.handle rest
   | "errtab" :: rest => Driver.Err.handleTab rest
+  | "retryloop" :: rest => Driver.Retry.handleLoop rest
+  | "backoff" :: rest => Driver.Retry.handleBackoff rest
   | _ => "bad-op"
 
 partial def loop (hin hout : IO.FS.Stream) : IO Unit := do
